@@ -36,7 +36,7 @@ class C14(EgSpec):
                 out.append(('violation', 'panic ' + core.sx_show(st[-1]), 'analysis %s: operation %d panicked at %s; asserted so far: {%s}' % (AN[an], k, core.sx_show(st[-1]), '; '.join(describe_history(pc))), {'analysis': AN[an]}))
                 return out
         fx = field(pi, 'fix')
-        lazy = stream['name'] == 'lazy'
+        lazy = is_lazy_case(pc)
         if lazy and fx and len(fx) > 1 and fx[1] != 'ok':
             out.append(('violation', 'stale-datum', 'analysis %s: equal classes do not share one datum: read through an old handle id (first lookup after the history) the datum differs from the leader\'s: %s (handle, through the old id, through the leader); asserted: {%s}'
                         % (AN[an], core.sx_show(fx[1]), '; '.join(describe_history(pc))), {'analysis': AN[an]}))
